@@ -1,6 +1,440 @@
-//! C08 — monitor not written yet.
-use crate::ctx::Ctx;
+//! C08 — blind signing yields a signature on exactly the message proven in the request.
+//!
+//! Honest side: builder -> challenge -> proof; the verifier recomputes the challenge from the
+//! proof; `verify_knowledge_of_opening` must return `Some`; the returned value is blind-signed and
+//! unblinded with the requester's factor; the result must satisfy the C07 oracle
+//! (`refs::ps_verify_ref`, atoms from the wire) on the requester's message and on no message that
+//! differs in one coordinate. `Signature::verify` is evaluated next to the oracle.
+//! Tampered side: every atom of the proof bytes is replaced (another valid value, +1, identity,
+//! negation, the atom of another honest request), the challenge is changed, another key is
+//! used: all must give `None`. The Schnorr relation recomputed by `refs::schnorr_ref_g1` on the
+//! tampered atoms is recorded with every observation.
+
+use crate::ctx::{guard, hex, Ctx};
+use crate::props::c07::{edge_message, edge_scalar, keypair, msg_hex, sig_atoms, Msg};
+use crate::props::util::repo_rel;
+use crate::refs::{self, pedersen_ref_g1, ps_verify_ref, schnorr_ref_g1, PkAtoms};
+use crate::tracer::{trace, Kind, Trace};
+use crate::wire::{self, alt_valid, dec, enc};
+use bls12_381::{G1Affine, Scalar};
+use ff::Field;
+use group::Curve;
+use rand_core::RngCore;
+use serde_json::{json, Value};
+use zkchannels_crypto::{
+    pointcheval_sanders::{KeyPair, PublicKey, Signature},
+    proofs::{Challenge, ChallengeBuilder, SignatureRequestProof, SignatureRequestProofBuilder},
+    BlindingFactor, Message,
+};
+
+struct ProofAtoms {
+    com: G1Affine,
+    com_bytes: Vec<u8>,
+    scalar_com: G1Affine,
+    resp_bf: Scalar,
+    resps: Vec<Scalar>,
+}
+
+/// the four parts of a signature request proof, located by field name in the observed layout
+fn proof_atoms(t: &Trace, n: usize) -> Result<ProofAtoms, String> {
+    let mut com = None;
+    let mut scalar_com = None;
+    let mut resp_bf = None;
+    let mut resps = vec![];
+    for a in &t.atoms {
+        let b = t.atom_bytes(a);
+        match a.kind {
+            Kind::G1 if a.fpath.ends_with("scalar_commitment") => scalar_com = Some(refs::g1(b).ok_or("C08: scalar commitment atom does not decompress")?),
+            Kind::G1 if a.fpath.ends_with("commitment") => com = Some((refs::g1(b).ok_or("C08: commitment atom does not decompress")?, b.to_vec())),
+            Kind::B32 if a.fpath.ends_with("blinding_factor_response_scalar") => resp_bf = Some(refs::sc(b).ok_or("C08: non-canonical response scalar")?),
+            Kind::B32 if a.fpath.contains("message_response_scalars/[") => resps.push(refs::sc(b).ok_or("C08: non-canonical response scalar")?),
+            _ => {}
+        }
+    }
+    let (com, com_bytes) = com.ok_or("C08: commitment atom not found in the request proof")?;
+    let r = ProofAtoms {
+        com,
+        com_bytes,
+        scalar_com: scalar_com.ok_or("C08: scalar commitment atom not found in the request proof")?,
+        resp_bf: resp_bf.ok_or("C08: blinding factor response atom not found in the request proof")?,
+        resps,
+    };
+    if r.resps.len() != n {
+        return Err(format!("C08: {} message response atoms found, expected {}", r.resps.len(), n));
+    }
+    Ok(r)
+}
+
+fn schnorr_holds(pka: &PkAtoms, p: &ProofAtoms, ch: &Scalar) -> bool {
+    schnorr_ref_g1(&pka.g1, &pka.y1s, &p.com, &p.scalar_com, ch, &p.resp_bf, &p.resps)
+}
+
+struct Request<const N: usize> {
+    builder: SignatureRequestProofBuilder<N>,
+    challenge: Challenge,
+    ctx_variant: usize,
+    cs_name: &'static str,
+}
+
+/// The verifier's (and prover's) challenge: over the first message, optionally the key and a context.
+fn challenge_for<const N: usize, T: zkchannels_crypto::proofs::ChallengeInput>(variant: usize, first_message: &T, pk: &PublicKey<N>) -> Challenge {
+    match variant % 3 {
+        0 => ChallengeBuilder::new().with(first_message).finish(),
+        1 => ChallengeBuilder::new().with(first_message).with(pk).finish(),
+        _ => ChallengeBuilder::new().with_bytes(b"zkmon C08 context").with(pk).with(first_message).finish(),
+    }
+}
+
+fn make_request<const N: usize>(rng: &mut (impl RngCore + rand_core::CryptoRng), pk: &PublicKey<N>, m: &[Scalar; N], mi: usize) -> Request<N> {
+    // conjunction commitment scalars chosen by the caller: none / every other one / all (with a zero)
+    let cs_variant = (mi / 7) % 3;
+    let mut cs: [Option<Scalar>; N] = [None; N];
+    for (i, x) in cs.iter_mut().enumerate() {
+        *x = match cs_variant {
+            0 => None,
+            1 => {
+                if i % 2 == 0 {
+                    Some(Scalar::random(&mut *rng))
+                } else {
+                    None
+                }
+            }
+            _ => Some(if i == 0 { Scalar::zero() } else { Scalar::random(&mut *rng) }),
+        };
+    }
+    let builder = SignatureRequestProofBuilder::<N>::generate_proof_commitments(&mut *rng, Message::new(*m), &cs, pk);
+    let ctx_variant = mi % 3;
+    let challenge = challenge_for(ctx_variant, &builder, pk);
+    Request { builder, challenge, ctx_variant, cs_name: ["none", "alternate", "all(first=0)"][cs_variant] }
+}
+
+fn verdict(v: bool) -> &'static str {
+    if v {
+        "some"
+    } else {
+        "none"
+    }
+}
+
+#[allow(clippy::too_many_arguments)]
+fn tampered<const N: usize>(
+    c: &mut Ctx,
+    pk: &PublicKey<N>,
+    pka: &PkAtoms,
+    challenge: Challenge,
+    bytes: &[u8],
+    layout: &Trace,
+    class: &str,
+    at: &str,
+    key: &str,
+    info: Value,
+) {
+    let p2: SignatureRequestProof<N> = match dec(bytes) {
+        Ok(p) => p,
+        Err(_) => {
+            c.count(&format!("tamper:{}:not-decodable", class), 1);
+            return;
+        }
+    };
+    // same layout, new bytes: what the Schnorr relation says about the tampered request
+    let mut t2 = layout.clone();
+    t2.bytes = bytes.to_vec();
+    let relation = proof_atoms(&t2, N).map(|a| schnorr_holds(pka, &a, &challenge.to_scalar()));
+    c.eval();
+    c.distinct(&format!("{}/tamper={}@{}", key, class, at));
+    match guard(|| p2.verify_knowledge_of_opening(pk, challenge).is_some()) {
+        Err(p) => c.violation(
+            &format!("C08 verify-panicked N={} tamper={}@{} loc={}", N, class, at, repo_rel(&p.location)),
+            json!({"N": N, "panic": p.message, "proof": hex(bytes), "info": info}),
+        ),
+        Ok(some) => {
+            c.count(&format!("tamper:{}:{}", class, verdict(some)), 1);
+            if some {
+                c.violation(
+                    &format!("C08 tampered-request-accepted N={} tamper={}@{}", N, class, at),
+                    json!({"N": N, "proof": hex(bytes), "challenge": hex(&challenge.to_scalar().to_bytes()),
+                           "public_key": hex(&enc(pk)), "schnorr_relation_recomputed": format!("{:?}", relation), "info": info}),
+                );
+            }
+        }
+    }
+}
+
+fn request_case<const N: usize>(c: &mut Ctx, name: &str, k: usize, mi: usize) {
+    let mut rng = c.rng(name);
+    let kp: KeyPair<N> = keypair::<N>(c, k, false);
+    let kp2: KeyPair<N> = keypair::<N>(c, k, true);
+    let pk = kp.public_key();
+    let pka = match PkAtoms::from_value(pk) {
+        Ok(a) if a.n() == N => a,
+        Ok(_) => return c.inconclusive("C08: public key atoms do not have N entries"),
+        Err(e) => return c.inconclusive(&e),
+    };
+    let m: Msg<N> = edge_message::<N>(mi, &mut rng);
+    let req = make_request(&mut rng, pk, &m.vals, mi);
+    let bf: BlindingFactor = req.builder.message_blinding_factor();
+    let bfs = bf.as_scalar();
+    let builder_copy = req.builder.clone();
+    let proof = req.builder.generate_proof_response(req.challenge);
+    let key = format!("N={}/key={}/msg={}/cs={}/ctx={}", N, k, m.name, req.cs_name, req.ctx_variant);
+    let base = json!({"N": N, "key": k, "message_classes": m.name, "message": msg_hex(&m.vals),
+                      "blinding_factor": hex(&bfs.to_bytes()), "commitment_scalars": req.cs_name,
+                      "challenge_variant": req.ctx_variant, "public_key": hex(&enc(pk))});
+
+    let pt = match trace(&proof) {
+        Ok(t) => t,
+        Err(e) => return c.inconclusive(&e),
+    };
+    let pa = match proof_atoms(&pt, N) {
+        Ok(a) => a,
+        Err(e) => return c.inconclusive(&e),
+    };
+
+    // --- the verifier derives the challenge from the proof
+    let challenge = challenge_for(req.ctx_variant, &proof, pk);
+    c.eval();
+    if challenge.to_scalar() != req.challenge.to_scalar() {
+        // the request will then be refused below, which is the refuting event; record the cause
+        c.count("verifier-challenge-differs-from-prover-challenge", 1);
+    }
+
+    // --- honest request must yield a blind-signable value
+    c.eval();
+    c.distinct(&format!("{}/honest", key));
+    let vbm = match guard(|| proof.verify_knowledge_of_opening(pk, challenge)) {
+        Err(p) => {
+            c.violation(
+                &format!("C08 verify-panicked N={} tamper=none loc={}", N, repo_rel(&p.location)),
+                json!({"panic": p.message, "proof": hex(&pt.bytes), "info": base}),
+            );
+            return;
+        }
+        Ok(v) => v,
+    };
+    c.count(&format!("honest-request:{}", verdict(vbm.is_some())), 1);
+    let relation = schnorr_holds(&pka, &pa, &challenge.to_scalar());
+    let Some(vbm) = vbm else {
+        c.violation(
+            &format!("C08 honest-request-rejected N={} commitment-scalars={}", N, req.cs_name),
+            json!({"proof": hex(&pt.bytes), "challenge": hex(&challenge.to_scalar().to_bytes()),
+                   "schnorr_relation_recomputed": relation, "info": base}),
+        );
+        return;
+    };
+    if !relation {
+        // the library accepted its own proof but the harness reads the atoms differently
+        return c.inconclusive("C08: reference Schnorr relation fails on an honest, accepted request (atom reading broken?)");
+    }
+
+    // --- extra: the proof's commitment is the Pedersen commitment under (g1, Y1..YN)
+    c.eval();
+    let com_ref = pedersen_ref_g1(&pka.g1, &pka.y1s, &m.vals, &bfs).to_affine();
+    let com_ok = com_ref == pa.com;
+    c.count(&format!("request-commitment-equals-reference:{}", com_ok), 1);
+    if !com_ok {
+        c.violation(
+            &format!("C08 request-commitment-is-not-the-pedersen-commitment N={}", N),
+            json!({"commitment": hex(&pa.com_bytes), "reference": hex(&com_ref.to_compressed()), "info": base}),
+        );
+    }
+    c.eval();
+    let blinded = enc(&Message::new(m.vals).blind(pk, bf));
+    let blind_ok = blinded == pa.com_bytes;
+    c.count(&format!("blinded-message-equals-request-commitment:{}", blind_ok), 1);
+    if !blind_ok {
+        c.violation(
+            &format!("C08 blinded-message-differs-from-request-commitment N={}", N),
+            json!({"commitment": hex(&pa.com_bytes), "blinded_message": hex(&blinded), "info": base}),
+        );
+    }
+
+    // --- blind-sign, unblind with the requester's factor, judge with the C07 oracle
+    let bs = vbm.blind_sign(&kp, &mut rng);
+    let sig: Signature = bs.unblind(bf);
+    let sa = match sig_atoms(&sig) {
+        Ok(a) => a,
+        Err(e) => return c.inconclusive(&e),
+    };
+    let sdetail = |m2: &[Scalar; N], oracle: bool, lib: &Value, extra: Value| {
+        json!({"sigma1": hex(&sa.b1), "sigma2": hex(&sa.b2), "verified_on": msg_hex(m2), "oracle": oracle,
+               "library_verify": lib, "proof": hex(&pt.bytes), "change": extra, "info": base})
+    };
+    {
+        c.eval();
+        c.distinct(&format!("{}/unblinded-on-message", key));
+        let oracle = ps_verify_ref(&pka, &sa.s1, &sa.s2, &m.vals);
+        let lib = guard(|| sig.verify(pk, &Message::new(m.vals)));
+        let libv = match &lib {
+            Ok(v) => json!(v),
+            Err(p) => json!(format!("panic: {}", p.message)),
+        };
+        c.count(&format!("unblinded-on-requesters-message:oracle-{}", if oracle { "accepts" } else { "rejects" }), 1);
+        if !oracle || !matches!(lib, Ok(true)) {
+            c.violation(
+                &format!("C08 unblinded-signature-fails-on-requesters-message N={} commitment-scalars={}", N, req.cs_name),
+                sdetail(&m.vals, oracle, &libv, json!(null)),
+            );
+        }
+    }
+    for j in 0..N {
+        let kind = ["+1", "random", "other-edge", "-1"][(j + mi) % 4];
+        let mut m2 = m.vals;
+        m2[j] = match kind {
+            "+1" => m.vals[j] + Scalar::one(),
+            "-1" => m.vals[j] - Scalar::one(),
+            "random" => Scalar::random(&mut rng),
+            _ => edge_scalar(m.classes[j] + 1 + (rng.next_u32() % 5) as usize, &mut rng),
+        };
+        if m2[j] == m.vals[j] {
+            m2[j] = m.vals[j] + Scalar::from(2u64);
+        }
+        c.eval();
+        c.distinct(&format!("{}/unblinded-on-changed/coord={}/{}", key, j, kind));
+        let oracle = ps_verify_ref(&pka, &sa.s1, &sa.s2, &m2);
+        let lib = guard(|| sig.verify(pk, &Message::new(m2)));
+        let libv = match &lib {
+            Ok(v) => json!(v),
+            Err(p) => json!(format!("panic: {}", p.message)),
+        };
+        c.count(&format!("unblinded-on-single-coordinate-change({}):oracle-{}", kind, if oracle { "accepts" } else { "rejects" }), 1);
+        if oracle || !matches!(lib, Ok(false)) {
+            c.violation(
+                &format!("C08 unblinded-signature-verifies-on-changed-message N={} change={}", N, kind),
+                sdetail(&m2, oracle, &libv, json!({"coordinate": j, "kind": kind})),
+            );
+        }
+    }
+    if mi < 2 {
+        c.sample(json!({"kind": "honest request, blind-signed and unblinded", "N": N, "key": k, "message_classes": m.name,
+                        "commitment_scalars": req.cs_name, "challenge_variant": req.ctx_variant, "proof": hex(&pt.bytes),
+                        "sigma1": hex(&sa.b1), "sigma2": hex(&sa.b2)}));
+    }
+
+    // --- tampered requests. A second honest request (other message, same key) supplies foreign atoms.
+    let m_other = edge_message::<N>(mi + 3, &mut rng);
+    let req_b = make_request(&mut rng, pk, &m_other.vals, mi);
+    let challenge_b = req_b.challenge;
+    let proof_b = req_b.builder.generate_proof_response(challenge_b);
+    let tb = match trace(&proof_b) {
+        Ok(t) => t,
+        Err(e) => return c.inconclusive(&e),
+    };
+    // positive twin of the whole tampering block: the second request is accepted under its own challenge
+    c.eval();
+    match guard(|| proof_b.verify_knowledge_of_opening(pk, challenge_b).is_some()) {
+        Ok(true) => c.count("honest-request:some", 1),
+        _ => {
+            c.count("honest-request:none", 1);
+            c.violation(
+                &format!("C08 honest-request-rejected N={} commitment-scalars={}", N, req_b.cs_name),
+                json!({"proof": hex(&tb.bytes), "challenge": hex(&challenge_b.to_scalar().to_bytes()), "info": base, "second_request": true}),
+            );
+        }
+    }
+    if tb.atoms.len() != pt.atoms.len() {
+        return c.inconclusive("C08: two requests of the same shape have different layouts");
+    }
+    let thorough = c.tier.pick(false, true);
+    for (ai, a) in pt.atoms.iter().enumerate() {
+        if a.kind == Kind::Len {
+            continue;
+        }
+        let orig = pt.atom_bytes(a).to_vec();
+        let mut subs: Vec<(&str, Vec<u8>)> = vec![];
+        if let Some(alt) = alt_valid(a.kind, &orig, &mut rng) {
+            subs.push(("other-valid-value", alt));
+        }
+        match a.kind {
+            Kind::B32 => {
+                if let Some(s) = refs::sc(&orig) {
+                    subs.push(("+1", (s + Scalar::one()).to_bytes().to_vec()));
+                    if thorough {
+                        subs.push(("negated", (-s).to_bytes().to_vec()));
+                        subs.push(("zero", Scalar::zero().to_bytes().to_vec()));
+                    }
+                }
+            }
+            Kind::G1 => {
+                subs.push(("identity", wire::g1_identity_bytes().to_vec()));
+                if let Some(p) = refs::g1(&orig) {
+                    subs.push(("negated", (-p).to_compressed().to_vec()));
+                }
+            }
+            _ => {}
+        }
+        let foreign = &tb.atoms[ai];
+        if foreign.fpath == a.fpath && foreign.len == a.len {
+            subs.push(("atom-of-another-request", tb.atom_bytes(foreign).to_vec()));
+        }
+        for (class, new) in subs {
+            if new == orig {
+                continue;
+            }
+            let bytes = pt.with_replaced(a, &new);
+            let info = json!({"atom": a.path, "original": hex(&orig), "replacement": hex(&new), "request": base});
+            tampered::<N>(c, pk, &pka, challenge, &bytes, &pt, class, &a.fpath, &key, info);
+        }
+    }
+    // the two group elements exchanged
+    {
+        let mut t2 = pt.clone();
+        let ca = pt.atoms.iter().find(|a| a.kind == Kind::G1 && a.fpath.ends_with("commitment") && !a.fpath.ends_with("scalar_commitment"));
+        let sa = pt.atoms.iter().find(|a| a.kind == Kind::G1 && a.fpath.ends_with("scalar_commitment"));
+        if let (Some(ca), Some(sa)) = (ca, sa) {
+            let (cb, sb) = (pt.atom_bytes(ca).to_vec(), pt.atom_bytes(sa).to_vec());
+            if cb != sb {
+                t2.bytes[ca.offset..ca.end()].copy_from_slice(&sb);
+                t2.bytes[sa.offset..sa.end()].copy_from_slice(&cb);
+                tampered::<N>(c, pk, &pka, challenge, &t2.bytes, &pt, "commitments-exchanged", "commitment<->scalar_commitment", &key, json!({"request": base}));
+            }
+        }
+    }
+    // challenge changed (the proof itself untouched)
+    let changed: Vec<(&str, Challenge)> = vec![
+        ("extra-bytes-appended", ChallengeBuilder::new().with(&builder_copy).with_bytes(b"changed").finish()),
+        ("other-variant", challenge_for((req.ctx_variant + 1) % 3, &proof, pk)),
+        ("of-another-request", challenge_b),
+        ("over-other-key", ChallengeBuilder::new().with(&proof).with(kp2.public_key()).with_bytes(b"k").finish()),
+    ];
+    for (cname, ch) in changed {
+        if ch.to_scalar() == challenge.to_scalar() {
+            c.inconclusive("C08: changed challenge equals the original one");
+            continue;
+        }
+        tampered::<N>(c, pk, &pka, ch, &pt.bytes, &pt, &format!("challenge:{}", cname), "challenge", &key, json!({"request": base}));
+    }
+    // a whole other request under this request's challenge
+    tampered::<N>(c, pk, &pka, challenge, &tb.bytes, &tb, "whole-proof-of-another-request", "proof", &key, json!({"request": base}));
+    // another key (its own Pedersen generators), same proof and challenge
+    {
+        let pk2 = kp2.public_key();
+        match PkAtoms::from_value(pk2) {
+            Ok(pka2) => tampered::<N>(c, pk2, &pka2, challenge, &pt.bytes, &pt, "other-key", "public_key", &key, json!({"request": base, "other_key": hex(&enc(pk2))})),
+            Err(e) => c.inconclusive(&e),
+        }
+    }
+}
+
+fn run_n<const N: usize>(c: &mut Ctx, keys: usize, msgs: usize) {
+    for k in 0..keys {
+        for mi in 0..msgs {
+            let name = format!("request/N={}/key={}/msg={}", N, k, mi);
+            c.case(&name, |c| request_case::<N>(c, &name, k, mi));
+        }
+    }
+}
 
 pub fn run(c: &mut Ctx) {
-    c.inconclusive("C08: monitor not written yet");
+    c.note(
+        "rule",
+        json!("One case per (N in {1,2,3,5,8,13}, key pair, message number). Message entries from EDGE={0,1,q-1,small,2^63-1,2^63,random} (numbers 0-6 constant class, 7-13 cyclic layouts, 14+ random class per coordinate); conjunction commitment scalars none / every other one / all with a zero (by message number); challenge over the first message alone / plus the key / plus a context string. Honest: builder -> challenge -> proof, the verifier recomputes the challenge from the proof, verify_knowledge_of_opening must be Some, its value is blind-signed and unblinded with message_blinding_factor(); ps_verify_ref (and Signature::verify) must accept the requester's message and reject one change per coordinate (+1 / random / other EDGE value / -1, rotating). Extras: the proof's commitment atom equals pedersen_ref_g1(g1, Y1..YN; message, blinding factor) and the bytes of Message::blind. Tampered: every non-length atom of the proof bytes replaced by another valid value, +1 (scalars), identity and negation (points), the same atom of a second honest request; commitments exchanged; challenge with extra bytes / other variant / of the second request / over another key; the whole second proof; another public key: all must give None (second request under its own challenge is the positive twin). Distinct = (N, key, message classes, commitment-scalar variant, challenge variant, check or tamper@atom)."),
+    );
+    let keys = c.tier.pick(3usize, 8);
+    let msgs = c.tier.pick(48usize, 200);
+    run_n::<1>(c, keys, msgs);
+    run_n::<2>(c, keys, msgs);
+    run_n::<3>(c, keys, msgs);
+    run_n::<5>(c, keys, msgs);
+    run_n::<8>(c, keys, msgs);
+    run_n::<13>(c, keys, msgs);
 }
